@@ -53,7 +53,7 @@ SECTIONS: List[Tuple[str, int, int]] = [
     ("t4.cooldowns", 2, 0),                  # [msg] "t4.cooldowns keys must be strings (op kinds)": free names, string keys
     ("graph", 0, 0), ("graph.update", 0, 0), ("graph.decay", 0, 0), ("graph.merge", 0, 0),
     ("graph.split", 0, 0), ("graph.promotion", 0, 0),
-    ("scheduler", 0, 0), ("scheduler.budgets", 1, 0), ("scheduler.fairness", 1, 0),   # no unknown-key message exists for these two
+    ("scheduler", 1, 0), ("scheduler.budgets", 1, 0), ("scheduler.fairness", 1, 0),   # no unknown-key message exists for the scheduler tree
     ("perf", 0, 0), ("perf.t1", 0, 0), ("perf.t1.cache", 0, 0), ("perf.t1.caps", 0, 0),
     ("perf.t2", 0, 0), ("perf.t2.cache", 0, 0), ("perf.t2.reader", 0, 0), ("perf.t2.reader.partitions", 0, 0),
     ("perf.snapshots", 0, 0), ("perf.metrics", 0, 0), ("perf.parallel", 0, 0),
